@@ -892,5 +892,90 @@ theorem assignCopy_spec (c : Cfg) (hok : c.OK) (i j : Nat) (s : St) (hG : Good c
     · intro s' ⟨h4, h5, h6⟩
       exact ⟨fun h => h4 (h2.fuel (hnf1 h)), by rw [h6, harr2]; simp, h5⟩
 
+/-! ### release the old block, adopt a new one (any order of the two on the heap) -/
+
+/-- the heap after `x`'s block has been returned -/
+def RelB (c : Cfg) (B B1 : List Block) (x : Arr) : Prop :=
+  (x.n = 0 ∧ B1 = B) ∨
+  (∃ b blk blk', 0 < x.n ∧ x.base = some b ∧ B[b]? = some blk ∧ blk.freed = false ∧
+      B1 = B.set b blk' ∧ blk'.freed = true ∧ FreedOK c blk' ∧ blk'.freedBy = x.alloc ∧ blk'.alloc = blk.alloc)
+
+theorem Released.relB {c : Cfg} {s s' : St} {x : Arr} (h : Released c s s' x) : RelB c s.blocks s'.blocks x := h.2.2
+
+theorem RelB.length {c : Cfg} {B B1 : List Block} {x : Arr} (h : RelB c B B1 x) : B1.length = B.length := by
+  rcases h with ⟨_, hb⟩ | ⟨b, blk, blk', _, _, _, _, hB', _⟩
+  · rw [hb]
+  · rw [hB', List.length_set]
+
+/-- releasing on a heap with one more block at the end is releasing underneath it -/
+theorem RelB.of_append {c : Cfg} {B B1 : List Block} {nb : Block} {x : Arr} (hx : HasBlock c B x)
+    (h : RelB c (B ++ [nb]) B1 x) : ∃ B0, RelB c B B0 x ∧ B1 = B0 ++ [nb] := by
+  rcases h with ⟨hn, hb⟩ | ⟨b, blk, blk', hpos, hb, hB, hf, hB', r⟩
+  · exact ⟨B, Or.inl ⟨hn, rfl⟩, hb⟩
+  · obtain ⟨b2, blk2, hb2, hB2, _⟩ := hx hpos
+    have hbb : b = b2 := by rw [hb] at hb2; simpa using hb2
+    subst hbb
+    have hlt : b < B.length := (List.getElem?_eq_some_iff.mp hB2).1
+    rw [List.getElem?_append_left hlt] at hB
+    exact ⟨B.set b blk', Or.inr ⟨b, blk, blk', hpos, hb, hB, hf, rfl, r⟩, by rw [hB', List.set_append_left _ _ hlt]⟩
+
+/-- what adoption of a newly built block (or of nothing) does to a heap `B1` obtained from `B` -/
+def NewB (c : Cfg) (B B1 B2 : List Block) (x' : Arr) : Prop :=
+  (x'.n = 0 ∧ B2 = B1) ∨
+  (∃ nb, 0 < x'.n ∧ x'.base = some B.length ∧ B2 = B1 ++ [nb] ∧ nb.freed = false ∧ nb.size = x'.n ∧ CellsOK c nb ∧
+      c.eqv nb.alloc x'.alloc = true)
+
+theorem Inv.replace {c : Cfg} {B B1 B2 : List Block} {A : List (Option Arr)} {i : Nat} {x x' : Arr}
+    (h : Inv c B A) (hi : A[i]? = some (some x)) (hr : RelB c B B1 x) (hnew : NewB c B B1 B2 x') :
+    Inv c B2 (A.set i (some x')) := by
+  have hlt : i < A.length := (List.getElem?_eq_some_iff.mp hi).1
+  have hlen := hr.length
+  have h1 : Inv c B1 (A.set i (some { x with n := 0 })) := by
+    rcases hr with ⟨hn, hb⟩ | ⟨b, blk, blk', hpos, hb, hB, hf, hB', hfr, hok, _, _⟩
+    · rw [hb]; exact Inv.set_nonowning h hi (fun b => ownsB_empty b hn) (fun y hy => by cases hy; rfl)
+    · rw [hB']; exact Inv.release h hi hpos hb hB hf hfr hok (fun y hy => by cases hy; rfl)
+  have hi1 : (A.set i (some { x with n := 0 }))[i]? = some (some { x with n := 0 }) := List.getElem?_set_self hlt
+  rcases hnew with ⟨hn, hb⟩ | ⟨nb, hpos, hbase, hb, hfr, hsz, hc, _⟩
+  · rw [hb]
+    have := Inv.set_nonowning h1 hi1 (fun b => ownsB_empty b rfl) (new := some x') (fun y hy => by cases hy; exact hn)
+    rwa [List.set_set] at this
+  · rw [hb]
+    have := Inv.install h1 hi1 (fun b => ownsB_empty b rfl) hpos (by rw [hbase, hlen]) hfr hsz hc
+    rwa [List.set_set] at this
+
+theorem InvA.replace {c : Cfg} {B B1 B2 : List Block} {A : List (Option Arr)} {i : Nat} {x x' : Arr}
+    (hA : InvA c B A) (h : Inv c B A) (hi : A[i]? = some (some x)) (hr : RelB c B B1 x) (hnew : NewB c B B1 B2 x') :
+    InvA c B2 (A.set i (some x')) := by
+  have hlt : i < A.length := (List.getElem?_eq_some_iff.mp hi).1
+  have hlen := hr.length
+  have hI1 : Inv c B1 (A.set i (some { x with n := 0 })) := by
+    rcases hr with ⟨hn, hb⟩ | ⟨b, blk, blk', hpos, hb, hB, hf, hB', hfr, hok, _, _⟩
+    · rw [hb]; exact Inv.set_nonowning h hi (fun b => ownsB_empty b hn) (fun y hy => by cases hy; rfl)
+    · rw [hB']; exact Inv.release h hi hpos hb hB hf hfr hok (fun y hy => by cases hy; rfl)
+  have h1 : InvA c B1 (A.set i (some { x with n := 0 })) := by
+    rcases hr with ⟨hn, hb⟩ | ⟨b, blk, blk', hpos, hb, hB, hf, hB', hfr, hok, hby, hal⟩
+    · rw [hb]; exact InvA.set_nonowning hA (fun y hy => by cases hy; rfl)
+    · rw [hB']
+      have heq : c.eqv blk'.freedBy blk'.alloc = true := by
+        rw [hby, hal]; exact eqv_symm (hA.ownerEq i x b blk hi hpos hb hB hf)
+      exact InvA.release hA h hi hpos hb hB hf hfr heq (fun y hy => by cases hy; rfl)
+  rcases hnew with ⟨hn, hb⟩ | ⟨nb, hpos, hbase, hb, hfr, hsz, hc, heq⟩
+  · rw [hb]
+    have := InvA.set_nonowning h1 (i := i) (new := some x') (fun y hy => by cases hy; exact hn)
+    rwa [List.set_set] at this
+  · rw [hb]
+    have := InvA.install h1 hI1 (i := i) (a := x') (by rw [hbase, hlen]) hfr heq
+    rwa [List.set_set] at this
+
+/-- `Built` seen as `NewB` -/
+theorem Built.newB {c : Cfg} {a : AllocId} {n : Nat} {s s1 : St} {p : Option Nat} (hb : Built c a n s s1 p)
+    {B1 : List Block} {x' : Arr} (hxb : x'.base = p) (hxn : x'.n = n) (hal : c.eqv a x'.alloc = true) :
+    (n = 0 ∧ s1.blocks = s.blocks ∧ NewB c s.blocks B1 B1 x') ∨
+    (∃ nb, s1.blocks = s.blocks ++ [nb] ∧ NewB c s.blocks B1 (B1 ++ [nb]) x') := by
+  obtain ⟨_, _, h⟩ := hb
+  rcases h with ⟨hn, hp, hbl⟩ | ⟨blk, hn, hp, hbl, hfr, hsz, hc, hba⟩
+  · exact Or.inl ⟨hn, hbl, Or.inl ⟨by omega, rfl⟩⟩
+  · exact Or.inr ⟨blk, hbl, Or.inr ⟨blk, by omega, by rw [hxb, hp], rfl, hfr, by omega, hc, by rw [hba]; exact hal⟩⟩
+
 end Ledger
 end Multi
